@@ -437,6 +437,8 @@ def run(ctx):
 
 SELFTEST = {
     "faults": [
+        {"name": "scalar weight cut recomputed from the component weights (generic dropped-read rule)", "file": "pyrex/kernel.py",
+         "old": "            elif particle.weight<self.weight_min:", "new": "            elif particle.survival_weight*particle.interaction_weight<self.weight_min:", "rule": "R10v"},
         {"name": "Cherenkov angle from the tracer's lower endpoint", "file": "pyrex/kernel.py", "old": "theta_c = np.arccos(1/self.ice.index(particle.vertex[2]))",
          "new": "theta_c = np.arccos(1/rt.n0)", "rule": "R10f"},
         {"name": "per-antenna lists built by repetition (shared list)", "file": "pyrex/kernel.py",
